@@ -357,21 +357,43 @@ impl<T1, T2, T3>''')]),
         struct __Put(String);
         thread_local! {
             static #cache_ident: RefCell<std::collections::HashMap<String, CacheEntry<#ret_type>>> = RefCell::new(std::collections::HashMap::new());''')]),
- ("c19_limit_spliced_into_ttl", ["C19"], [(MS, '''        &attrs.limit,
-        &attrs.max_memory,
-        &attrs.policy,
-        &attrs.ttl,
-        &attrs.frequency_weight,
-        &key_expr,
-        block,
-        &fn_name_str,''', '''        &attrs.limit,
-        &attrs.max_memory,
-        &attrs.policy,
-        &attrs.limit,
-        &attrs.frequency_weight,
-        &key_expr,
-        block,
-        &fn_name_str,''')]),
+ ("c19_thread_scope_ignores_policy", ["C19", "C07"], [(MS, '''            #limit_expr,
+            #max_memory_expr,
+            #policy_expr,
+            #ttl_expr,
+            #frequency_weight_expr
+        );''', '''            #limit_expr,
+            #max_memory_expr,
+            cachelito_core::EvictionPolicy::FIFO,
+            #ttl_expr,
+            #frequency_weight_expr
+        );''')]),
+ ("c19_async_ignores_frequency_weight", ["C19", "C08"], [(MA, '''            #ttl_expr,
+            #frequency_weight_expr,
+            &*#stats_ident,''', '''            #ttl_expr,
+            Option::<f64>::None,
+            &*#stats_ident,''')]),
+ ("c19_sync_max_memory_ignored_when_limit_set", ["C19", "C05"], [(MS, '''    // Check if max_memory is None by comparing the token stream
+    let has_max_memory = has_max_memory(max_memory_expr);
+
+    let invalidation_check = generate_invalidation_check(invalidate_on);''', '''    // Check if max_memory is None by comparing the token stream
+    let has_max_memory = has_max_memory(max_memory_expr) && limit_expr.to_string().contains("None");
+
+    let invalidation_check = generate_invalidation_check(invalidate_on);''')]),
+ ("c19_async_name_ignored_for_stats", ["C19", "C15"], [(MA, '''                cachelito_core::stats_registry::register(#fn_name_str, &#stats_ident);''', '''                cachelito_core::stats_registry::register(#fn_name_string, &#stats_ident);''')]),
+ ("c19_mb_is_1000_kb", ["C19"], [(MU, "                        Ok(n) => n * 1024 * 1024,\n", "                        Ok(n) => n * 1000 * 1024,\n")]),
+ ("c19_async_ttl_uses_limit_value", ["C19", "C06"], [(MA, '''            #policy_expr,
+            #ttl_expr,
+            #frequency_weight_expr,''', '''            #policy_expr,
+            (#limit_expr).map(|l: usize| l as u64).or(#ttl_expr),
+            #frequency_weight_expr,''')]),
+ ("c19_invalid_scope_value_accepted_as_global", ["C19"], [(MU, '''                } else {
+                    Err(
+                        quote! { compile_error!("Invalid scope: expected \\"global\\" or \\"thread\\"") },
+                    )
+                }''', '''                } else {
+                    Ok("global".to_string())
+                }''')]),
  ("c19_kb_is_1000", ["C19"], [(MU, "                        Ok(n) => n * 1024,\n", "                        Ok(n) => n * 1000,\n")]),
  ("c19_unknown_attribute_ignored_sync", ["C19"], [(MU, '''                    "Unknown attribute: `{}`. Valid attributes are: limit, policy, ttl, scope, name, max_memory, tags, events, dependencies, invalidate_on, cache_if, frequency_weight",
                     attr_name
